@@ -8,6 +8,7 @@ import PoetryVerif.Proofs.MarkerLeafCompat
 import PoetryVerif.Proofs.MarkerLeafString
 import PoetryVerif.Proofs.VRangeInv
 import PoetryVerif.Proofs.VRangeSep
+import PoetryVerif.Proofs.VRangeSepV
 
 set_option linter.unusedSimpArgs false
 set_option linter.unusedVariables false
@@ -545,6 +546,262 @@ theorem agree_pv_in (E : Env) (p0 : Nat × Nat) (rest : List (String × (Nat × 
         rw [beq_iff_eq, cmpRef_final (litV_final x' [y']) (litV_final p.1 [p.2]), decide_eq_true_eq]
         exact sc_pair_eq p.1 p.2 x' y'
     exact key (p0 :: rest.map (·.2))
+  · simp [itemCoherent, Single.coherent, itemConstraintString, hm]
+
+
+
+/-! ### `python_full_version in "X.Y.Z …"` -/
+
+/-- a version token `X.Y.Z…` given by its numbers -/
+abbrev VTok := Nat × List Nat
+
+def VTok.text (t : VTok) : String := Version.relText (t.1 :: t.2)
+def VTok.ver (t : VTok) : Version := litV t.1 t.2
+def VTok.chars (t : VTok) : List Char := relChars t.1 t.2
+
+/-- the characters of `==X.Y.Z` -/
+def eqChars (t : VTok) : List Char := '=' :: '=' :: t.chars
+
+/-- a list literal of version tokens -/
+def verListN (t0 : VTok) (rest : List (String × VTok)) : String :=
+  listLit t0.text (rest.map fun q => (q.1, q.2.text))
+
+theorem verListN_ok (t0 : VTok) (rest : List (String × VTok)) (hs : ∀ q ∈ rest, SepRun q.1) :
+    ListLitOk t0.text (rest.map fun q => (q.1, q.2.text)) := by
+  refine ⟨plainTok_relText _ _, ?_⟩
+  intro q hq
+  obtain ⟨r, hr, rfl⟩ := List.mem_map.1 hq
+  exact ⟨hs r hr, plainTok_relText _ _⟩
+
+theorem verListN_split (t0 : VTok) (rest : List (String × VTok)) (hs : ∀ q ∈ rest, SepRun q.1) :
+    splitListValue (verListN t0 rest).toList = (t0 :: rest.map (·.2)).map VTok.chars := by
+  rw [verListN, listLit_toList, splitListValue_join _ _ (verListN_ok t0 rest hs).listOk]
+  simp [restC, List.map_map, Function.comp_def, VTok.text, VTok.chars, relText_toList]
+
+open Spec.Pep508 in
+theorem verListN_tokens (t0 : VTok) (rest : List (String × VTok)) (hs : ∀ q ∈ rest, SepRun q.1) :
+    tokens (verListN t0 rest) = (t0 :: rest.map (·.2)).map VTok.text := by
+  rw [verListN, tokens_listLit _ _ (verListN_ok t0 rest hs)]
+  simp [listToks, List.map_map, Function.comp_def]
+
+open Spec.Pep508 in
+theorem mapM_parseFinal_toks (l : List VTok) : (l.map VTok.text).mapM parseFinal = some (l.map VTok.ver) := by
+  induction l with
+  | nil => rfl
+  | cons a as ih => simp [List.mapM_cons, VTok.text, VTok.ver, parseFinal_relText, ih]
+
+theorem joinChars_splitDots (t : VTok) : joinChars "." (splitDots t.chars) = t.text := by
+  rw [VTok.chars, splitDots_relChars]
+  have hd : ∀ n, String.ofList (dg n) = natToString n := by intro n; simp [dg]
+  have hm : ∀ l : List Nat, (l.map dg).map String.ofList = l.map natToString := by
+    intro l; induction l <;> simp_all
+  simp only [joinChars, VTok.text, Version.relText, List.map_cons, hd, hm]
+
+theorem versionListItems_in3 (t0 : VTok) (rest : List (String × VTok)) (hs : ∀ q ∈ rest, SepRun q.1)
+    (h3 : ∀ t ∈ t0 :: rest.map (·.2), 2 ≤ t.2.length) :
+    versionListItems true (verListN t0 rest) = (t0 :: rest.map (·.2)).map (fun t => String.ofList (eqChars t)) := by
+  simp only [versionListItems, verListN_split t0 rest hs, List.map_map]
+  apply List.map_congr_left
+  intro t ht
+  simp only [Function.comp]
+  have hl : (splitDots t.chars).length = t.2.length + 1 := by rw [VTok.chars, splitDots_relChars]; simp
+  have h := h3 t ht
+  have h1 : ((splitDots t.chars).length == 1) = false := by rw [beq_eq_false_iff_ne, hl]; omega
+  have h2 : ((splitDots t.chars).length == 2) = false := by rw [beq_eq_false_iff_ne, hl]; omega
+  simp only [h1, h2, Bool.or_false, Bool.false_eq_true, if_false, if_true, joinChars_splitDots]
+  exact str_eq_of_toList (by simp [eqChars, VTok.text, VTok.chars, relText_toList])
+
+theorem finals_regB (B : List Version) (h : ∀ e ∈ B, FinalV e) : RegB B :=
+  ⟨finals_mutreg B h, finals_nolocal B h⟩
+
+theorem ver_regMember (B : List Version) (V : Version) (hV : FinalV V) (hm : V ∈ B) : RegMember B (.ver V) := by
+  refine ⟨hV.2, trivial, trivial, ?_⟩
+  intro e he
+  simp [RC.bounds, RC.view, RC.min, RC.max, VRange.bounds] at he
+  rcases he with rfl | rfl <;> exact hm
+
+theorem ver_allows_final (V v : Version) (hV : FinalV V) (hv : FinalV v) :
+    (RC.ver V).allows v = (Spec.cmpRef v V == .eq) := by
+  apply bool_eq_of_iff
+  simp only [RC.allows]
+  rw [RC.ver_allows_iff V v hV.2 hv.2 (reg1_of_final hv.1 hV.1), vk_eq_iff, cmp_eq_cmpRef v V hv.2 hV.2, beq_iff_eq]
+
+/-- **`allows` on the `VersionUnion.of` of final versions**: total, and equality with one of them -/
+theorem unionOf_vers_allows (Vs : List Version) (hVs : ∀ V ∈ Vs, FinalV V) (v : Version) (hv : FinalV v) :
+    ∃ res, unionOfFlat (Vs.map RC.ver) = .ok res ∧
+      res.allows v = .ok (Vs.any fun V => Spec.cmpRef v V == .eq) := by
+  have hB := finals_regB Vs hVs
+  have hm : ∀ c ∈ Vs.map RC.ver, RegMember Vs c := by
+    intro c hc
+    obtain ⟨V, hV, rfl⟩ := List.mem_map.1 hc
+    exact ver_regMember Vs V (hVs V hV) hV
+  obtain ⟨res, hres, hwf, hmem, hsem⟩ := unionOfFlat_reg hB (Vs.map RC.ver) hm
+  refine ⟨res, hres, ?_⟩
+  rw [VC.allows_of_reg hB res hwf hmem v, hsem v hv.2]
+  · congr 1
+    simp only [anyAllows, List.any_map, Function.comp_def]
+    have key : ∀ l : List Version, (∀ V ∈ l, FinalV V) →
+        (l.any fun x => (RC.ver x).allows v) = l.any fun V => Spec.cmpRef v V == .eq := by
+      intro l hl
+      induction l with
+      | nil => rfl
+      | cons a as ih =>
+        simp only [List.any_cons, ver_allows_final a v (hl a (by simp)) hv,
+          ih (fun V hV => hl V (List.mem_cons_of_mem _ hV))]
+    exact key Vs hVs
+  · apply finals_regular _ _ v hv
+    intro e he
+    simp only [boundsOf, List.mem_flatMap, List.mem_map] at he
+    obtain ⟨c, ⟨V, hV, rfl⟩, hec⟩ := he
+    simp [RC.bounds, RC.view, RC.min, RC.max, VRange.bounds] at hec
+    rcases hec with rfl | rfl <;> exact hVs _ hV
+
+/-- **`parse_marker_version_constraint` on `p0 || p1 || …`** for pieces without blanks, commas, bars: the single
+constraint, or `VersionUnion.of` of the pieces' constraints -/
+theorem pmvc_orJoin {α : Type} (f : α → List Char) (g : α → VC) (a0 : α) (as : List α)
+    (hpl : ∀ a, ∀ c ∈ f a, gPlain c) (hne : ∀ a, f a ≠ []) (hstar : ∀ a, (f a).head? ≠ some '*')
+    (hparse : ∀ a, VParser.parseSingle (f a) true = .ok (g a)) :
+    VParser.parseMarkerVersionConstraint (String.ofList (joinC " || ".toList ((a0 :: as).map f))) =
+      (match as with
+       | [] => .ok (g a0)
+       | _ :: _ => VC.unionOf ((a0 :: as).map g)) := by
+  have hhd : ∀ a, ∃ c cs, f a = c :: cs ∧ isSpace c = false := by
+    intro a
+    cases h : f a with
+    | nil => exact absurd h (hne a)
+    | cons c cs => exact ⟨c, cs, rfl, (hpl a c (by simp [h])).1⟩
+  have hlast : ∀ a, ∃ d, (f a).getLast? = some d ∧ isSpace d = false := by
+    intro a
+    refine ⟨(f a).getLast (hne a), List.getLast?_eq_some_getLast (hne a), (hpl a _ (List.getLast_mem (hne a))).1⟩
+  have hpieces : ∀ q ∈ f a0 :: as.map f, PieceOk Generic.sepOr q ∧ ∃ c cs, q = c :: cs ∧ isSpace c = false := by
+    intro q hq
+    rw [← List.map_cons] at hq
+    obtain ⟨a, _, rfl⟩ := List.mem_map.1 hq
+    refine ⟨?_, hhd a⟩
+    have := PieceOk_plain sepOr_like (f a) [] (hpl a) (PieceOk_nil _)
+    simpa using this
+  have hsplit := reSplit_join Generic.sepOr " || ".toList (by decide)
+    (fun c cs hc => sepOr_bars c cs hc) (f a0) (as.map f) hpieces
+  obtain ⟨dl, hdl, hdls⟩ := joinC_last " || ".toList (as.map f) (f a0) (by
+    intro q hq
+    rw [← List.map_cons] at hq
+    obtain ⟨a, _, rfl⟩ := List.mem_map.1 hq
+    exact hlast a)
+  obtain ⟨d0, ds0, hd0, hsp0⟩ := hhd a0
+  have hhead : (joinC " || ".toList (f a0 :: as.map f)).head? = some d0 := by
+    cases as <;> simp [joinC, hd0]
+  have hstrip : VParser.strip (joinC " || ".toList (f a0 :: as.map f)) = joinC " || ".toList (f a0 :: as.map f) :=
+    gstrip_hl _ d0 dl hhead hdl hsp0 hdls
+  have hst : (String.ofList (joinC " || ".toList (f a0 :: as.map f)) == "*") = false := by
+    cases hj : joinC " || ".toList (f a0 :: as.map f) with
+    | nil => rw [hj] at hhead; simp at hhead
+    | cons a as' =>
+      rw [hj] at hhead
+      have : a = d0 := by simpa using hhead
+      subst this
+      have := hstar a0
+      rw [hd0] at this
+      exact ofList_ne_star _ _ (by simpa using this)
+  have hgroups : ((a0 :: as).map f).mapM (fun q => VParser.parseGroup q true) = .ok ((a0 :: as).map g) :=
+    mapM_map_ok _ _ _ (a0 :: as) (fun a _ =>
+      parseGroup_plain (f a) true (fun c hc => hpl a c hc) _ (hparse a))
+  simp only [List.map_cons] at hgroups
+  unfold VParser.parseMarkerVersionConstraint VParser.parseConstraintAux
+  simp only [List.map_cons, hst, Bool.false_eq_true, if_false, String.toList_ofList, hstrip, splitOr_eq_reSplit,
+    hsplit, hgroups, bind, Except.bind, pure, Except.pure]
+  cases as with
+  | nil => rfl
+  | cons a1 as => rfl
+
+theorem eqChars_gPlain (t : VTok) : ∀ c ∈ eqChars t, gPlain c := by
+  intro c hc
+  simp only [eqChars, VTok.chars, List.mem_cons] at hc
+  rcases hc with rfl | rfl | hc
+  · exact gPlain_eq
+  · exact gPlain_eq
+  · rcases relChars_chars t.1 t.2 c hc with h | rfl
+    · exact gPlain_of_tokChar c (digit_tokChar c h)
+    · unfold gPlain; decide
+
+theorem VTok.ver_final (t : VTok) : FinalV t.ver := litV_FinalV t.1 t.2
+
+/-- `==X0.Y0.Z0 || ==X1.Y1.Z1 || …`: defined, admits a final exactly when it equals one of the tokens -/
+theorem pmvc_eqList (t0 : VTok) (ts : List VTok) (v : Version) (hv : FinalV v) :
+    ∃ c, VParser.parseMarkerVersionConstraint
+        (String.ofList (joinC " || ".toList ((t0 :: ts).map eqChars))) = .ok c ∧
+      c.allows v = .ok ((t0 :: ts).any fun t => Spec.cmpRef v t.ver == .eq) := by
+  have hp := pmvc_orJoin eqChars (fun t => VC.single (.ver t.ver)) t0 ts eqChars_gPlain
+    (by intro a; simp [eqChars]) (by intro a; simp [eqChars])
+    (by intro a; exact parseSingle_eq a.1 a.2)
+  rw [hp]
+  cases ts with
+  | nil =>
+    refine ⟨_, rfl, ?_⟩
+    simp [VC.allows, ver_allows_final t0.ver v t0.ver_final hv]
+  | cons t1 ts =>
+    obtain ⟨res, h1, h2⟩ := unionOf_vers_allows ((t0 :: t1 :: ts).map VTok.ver)
+      (by intro V hV; obtain ⟨t, _, rfl⟩ := List.mem_map.1 hV; exact t.ver_final) v hv
+    refine ⟨res, ?_, ?_⟩
+    · have e : ∀ l : List VTok, (l.map fun t => VC.single (.ver t.ver)).flatMap VC.flatten = (l.map VTok.ver).map RC.ver := by
+        intro l; induction l <;> simp_all [VC.flatten]
+      show VC.unionOf ((t0 :: t1 :: ts).map fun t => VC.single (.ver t.ver)) = .ok res
+      rw [VC.unionOf, e]; exact h1
+    · rw [h2, List.any_map]; rfl
+
+theorem leafPrepare_pfv_in (t0 : VTok) (rest : List (String × VTok)) (hs : ∀ q ∈ rest, SepRun q.1)
+    (h3 : ∀ t ∈ t0 :: rest.map (·.2), 2 ≤ t.2.length) :
+    leafPrepare "python_full_version" ("in" ++ verListN t0 rest) false =
+      .ok { name := "python_full_version", op := "in", value := verListN t0 rest, swapped := false,
+            cstr := String.ofList (joinC " || ".toList ((t0 :: rest.map (·.2)).map eqChars)),
+            kind := .version true } := by
+  have hok := verListN_ok t0 rest hs
+  have hvo := listLit_valueOk _ _ hok
+  have hc : versionListConstraint true (verListN t0 rest) =
+      String.ofList (joinC " || ".toList ((t0 :: rest.map (·.2)).map eqChars)) := by
+    apply str_eq_of_toList
+    rw [versionListConstraint, versionListItems_in3 t0 rest hs h3]
+    simp only [if_true, joinWith_toList, String.toList_ofList, List.map_map, Function.comp_def]
+  cases hl : (verListN t0 rest).toList with
+  | nil => exact absurd hl hvo.1
+  | cons c cs =>
+    have hvo' : valueOk' (c :: cs) := by rw [← hl]; exact hvo
+    have hm := matchPattern1_in c cs hvo'
+    have hvs : String.ofList (c :: cs) = verListN t0 rest := by rw [← hl]; simp
+    unfold leafPrepare
+    simp only [Bool.false_eq_true, if_false, String.toList_append, hl]
+    have : "in".toList = ['i', 'n'] := rfl
+    simp only [this, List.cons_append, List.nil_append, hm, hvs, Option.getD_some]
+    have f1 : Gen.versionLikeMarkerNames.contains "python_full_version" = true := by decide
+    have f1' : "python_full_version" ∈ Gen.versionLikeMarkerNames := by decide
+    have f3 : aliasName "python_full_version" = "python_full_version" := by decide
+    have f4 : ("python_full_version" != "platform_release") = true := by decide
+    simp [f1, f1', f3, f4, hc]
+
+open Spec.Pep508 in
+/-- **`python_full_version in "X0.Y0.Z0 …"`** (tokens of three or more components), environment value any final
+text: equality with one of the tokens -/
+theorem agree_pfv_in (E : Env) (t0 : VTok) (rest : List (String × VTok)) (hs : ∀ q ∈ rest, SepRun q.1)
+    (h3 : ∀ t ∈ t0 :: rest.map (·.2), 2 ≤ t.2.length) (x' : Nat) (r' : List Nat)
+    (hev : E.get? "python_full_version" = some (Version.relText (x' :: r'))) :
+    ∃ b, itemV E "python_full_version" "in" (verListN t0 rest) false = .ok b ∧
+      evalItem "python_full_version" "in" (verListN t0 rest) false E = some b ∧
+      itemCoherent "python_full_version" "in" (verListN t0 rest) false = true := by
+  obtain ⟨c, hc, hall⟩ := pmvc_eqList t0 (rest.map (·.2)) (litV x' r') (litV_FinalV x' r')
+  have hm : mkSingle "python_full_version" ("in" ++ verListN t0 rest) false =
+      .ok ⟨"python_full_version", "in", verListN t0 rest, false, .ver c⟩ := by
+    simp only [mkSingle, leafPrepare_pfv_in t0 rest hs h3, bind, Except.bind, parseByKind_ver _ c hc, pure,
+      Except.pure]
+  refine ⟨(t0 :: rest.map (·.2)).any fun t => Spec.cmpRef (litV x' r') t.ver == .eq, ?_, ?_, ?_⟩
+  · simp only [itemV, itemConstraintString, Bool.false_eq_true, if_false, hm]
+    rw [validateLike_ver _ (by decide) c E x' r' hev, hall]
+  · have h1 : canonVar "python_full_version" = "python_full_version" := by decide
+    have h3' : "python_full_version" ∈ versionVars := by decide
+    simp only [evalItem, h1, show ("python_full_version" == "extra") = false by decide, Bool.false_eq_true,
+      if_false, hev, List.contains_iff_mem, h3', if_true, parseFinal_relText, verListN_tokens t0 rest hs,
+      mapM_parseFinal_toks]
+    simp only [List.isEmpty_cons, List.map_cons, Bool.false_eq_true, if_false, if_true, Option.some.injEq,
+      beq_self_eq_true, List.any_cons, List.any_map]
+    rfl
   · simp [itemCoherent, Single.coherent, itemConstraintString, hm]
 
 end Poetry.Marker
